@@ -157,7 +157,7 @@ m = {"version": 1, "setup_cmd": "./check setup",
      "engines": [{"name": "coq-proof+differential", "path": "/verif/check", "serves_properties": sorted(CLAIMED),
                   "kind_free_text": "Coq 8.16.1 development under /verif/coq (models, proofs, Props*.v) + Go harness under /verif/harness built against /repo (plain and scheduler-shimmed builds) + Python driver deciding verdicts"}],
      "checks": [chk(p["id"], CLAIMED[p["id"]]) for p in props if p["id"] in CLAIMED],
-     "notes": "All twenty properties are claimed at level proof: Coq theorems about hand-written executable models, tied to the code on every run by differential execution (models evaluated inside Coq by vm_compute) and by the theorems' predicates evaluated on what the implementation did; DESIGN.md section 0 describes the tree as built. " + NFIX + " genuine defects of the pinned code were repaired by unguarded 'fix:' commits in /repo (known_findings.json lists them as fixed; no finding is left open). seeded/ holds sixty confirmed seeded changes from blind sub-agents with the check that catches each. A failing case must reproduce in a fresh harness process before it is reported; a broken proof or correspondence without a failing input is reported with the suffix no-failing-input-found.",
+     "notes": "All twenty properties are claimed at level proof: Coq theorems about hand-written executable models, tied to the code on every run by differential execution (models evaluated inside Coq by vm_compute) and by the theorems' predicates evaluated on what the implementation did; DESIGN.md section 0 describes the tree as built. " + NFIX + " genuine defects of the pinned code were repaired by unguarded 'fix:' commits in /repo (known_findings.json lists them as fixed; no finding is left open). seeded/ holds the seeded changes delivered by blind sub-agents in five rounds (sixty in round 1, forty in round 4, a few in rounds 2 and 5) with their demonstrations; seeded/caught_by.json and DESIGN.md 0.7, 0.11, 0.13 say which check catches each. Three translation ties (ringbuffer.go, inbox.go, registry.go) regenerate a model from the source on every run and re-prove it equivalent to the hand-written one (information in the evidence, never a verdict). A failing case must reproduce in a fresh harness process before it is reported; a broken proof or correspondence without a failing input is reported with the suffix no-failing-input-found.",
      "not_applicable": [{"property_id": p["id"], "reason": NA_REASON} for p in props if p["id"] not in CLAIMED]}
 json.dump(m, open(os.path.join(V, "MANIFEST.json"), "w"), indent=1)
 print("MANIFEST: %d claimed, %d not claimed" % (len(m["checks"]), len(m["not_applicable"])))
